@@ -11,13 +11,31 @@ from .. import rulesys as rs
 from ..perutil import parse_period_token
 
 
+def _no_store(c: rs.SysCase):
+    """the model's only caching option: a blacklisted variable is not kept when the simulation opts out of the cache;
+    a cache blacklist WITHOUT opt_out_cache changes nothing (such variables are cached, marked and purged like any other)"""
+    cfg = c.config or {}
+    black = set(cfg.get("blacklist_vars", [])) if cfg.get("opt_out") else set()
+    return lambda i, v: v.no_store or i in black
+
+
 def _case(c: rs.SysCase, tags=(), claimed=True) -> Case:
-    return Case(line=rs.to_line(c), payload=pickle.dumps(c).hex(), tags=tuple(tags), claimed=claimed)
+    return Case(line=rs.to_line(c, no_store_override=_no_store(c)), payload=pickle.dumps(c).hex(), tags=tuple(tags), claimed=claimed)
+
+
+def _configure(c: rs.SysCase):
+    cfg = c.config or {}
+
+    def configure(sim):
+        if cfg.get("blacklist_vars") is not None and "blacklist_vars" in cfg:
+            sim.tax_benefit_system.cache_blacklist = {f"v{i}" for i in cfg["blacklist_vars"]}
+            sim.opt_out_cache = bool(cfg.get("opt_out"))
+    return configure
 
 
 def impl(case: Case) -> str:
     c: rs.SysCase = pickle.loads(bytes.fromhex(case.payload))
-    out, sim, problems = rs.run_real(c)
+    out, sim, problems = rs.run_real(c, configure=_configure(c))
     if problems:        # a result whose dtype is not the variable's (what a later reader gets must not depend on the cache)
         out += "#DTYPE:" + problems[0]
     return out
@@ -63,6 +81,9 @@ def oracle(case: Case, out: str):
     c: rs.SysCase = pickle.loads(bytes.fromhex(case.payload))
     if _values_too_large(out):
         return None
+    if "#ALIAS:" in out:
+        return ("returned-array-rewritten", "an array handed out by an earlier request (#" + out.split("#ALIAS:")[1].split(";")[0].split("|")[0].split("#")[0]
+                + ") changed its values when the store was written to later: earlier results / trace values are rewritten retroactively")
     if "#DTYPE:" in out:
         return ("result-type", out.split("#DTYPE:")[1])
     res, known = out.split("|", 1)
@@ -149,6 +170,11 @@ def generate(rng: random.Random, tier: str):
             months = rs.MONTHS
             c.reqs = [("calc", rng.randrange(len(c.vars)), rng.choice(months[1:])) for _ in range(rng.randint(2, 6))]
         tags = (f"kind={kind}", f"msl={msl}")
+        if rng.random() < 0.3:
+            # a cache blacklist naming 1-2 variables (inside the spiral chains too), with and without opt_out_cache
+            n = len(c.vars)
+            c.config = {"blacklist_vars": sorted(rng.sample(range(n), min(n, rng.randint(1, 2)))), "opt_out": rng.random() < 0.5}
+            tags += ("blacklist", f"opt_out={c.config['opt_out']}")
         # 40%: the other entry points between the requests -- calculate_divide, get_array, delete_arrays of computed
         # values (all inside the statement: the inputs stay fixed); 12%: set_input / delete_arrays of inputs as well
         u = rng.random()
